@@ -91,9 +91,6 @@ def _param_unassigned(fn: Func, name: str) -> bool:
 
 def check(ck: Checker) -> None:
     _lints(ck, "C06.aliasing", "hashfile.gc")
-    from . import round4 as _r4
-
-    _r4.hashinfo_from_dict_strict(ck, "C06.used")
     prog, res = ck.prog, ck.res
     ck.decided = [
         "C06.arity: every iteration over a Tree in gc unpacks as many values as Tree.__iter__ yields",
@@ -276,6 +273,10 @@ def check(ck: Checker) -> None:
 
     # ---------------------------------------------------------------- count
     _check_count(ck, gc, g, destr)
+    from . import round4 as _r4
+
+    _r4.hashinfo_from_dict_strict(ck, "C06.used")
+
 
 
 def _name_mismatch_edge(n, lab) -> bool:
